@@ -13,7 +13,7 @@ import (
 )
 
 func init() {
-	props["C08"] = &propDef{run: runC08, explanation: "Partial: end-to-end acceptance of client-built requests and 'yields the requested document' are behavioural and NOT decided. Decided statically (necessary conditions): (X1) each builder signs / serialises values of exactly the named types the parser decodes into, so member names agree by construction; (X2) the client's signer-header whitelist equals the parser's ({alg,kid}); (P1) in every builder the delta hash is CalculateModelMultihash of the very delta object placed in the request, with the caller's multihash code, and that value is what is signed / put in the suffix data; all four builders return the canonical encoding of the request object; (G1) builders refuse unacceptable inputs — create: document xor patches, valid multihash code, both commitments computed with that code, distinct commitments; update/recover: key present and valid, key-reuse check against the next commitment, signer checks; deactivate: signer checks; (P2) GetAnchoredOperation rebuilds the per-type request from the parsed model field by field and returns its canonical encoding with type, suffix and anchor origin; (P3) the Sidetree client derives the reveal value from the signer's public key with the code of the operation commitment, uses the signer's key as update/recovery key, derives next commitments from the next keys with the configured algorithm and passes the signer through; (O1) createUpdatePatches never emits a remove-* patch after an add-* patch. (E1) the request-document builders (PopulateRaw*, Doc.JSONBytes) do not write through their inputs. (K3) member names of all request and signed-data models are the wire format's; the did suffix is the text after the last ':'; the raw key carries exactly one key representation on every accepting path; builder options are found by type. An unnamed anchor origin stays absent; every accepting exit of Doc.JSONBytes depends on every field of Doc; each service member is copied under conditions on itself only. All of C16 runs inside this check; With… options store their argument unconditionally; update-patch builders hand values on as they are. Fresh request body per HTTP attempt; a named anchor origin reaches the request info. One raw entry per supplied key / service / URI. C09.G1 runs here."}
+	props["C08"] = &propDef{extraPkgs: []string{jsonPatchPkg}, run: runC08, explanation: "Partial: end-to-end acceptance of client-built requests and 'yields the requested document' are behavioural and NOT decided. Decided statically (necessary conditions): (X1) each builder signs / serialises values of exactly the named types the parser decodes into, so member names agree by construction; (X2) the client's signer-header whitelist equals the parser's ({alg,kid}); (P1) in every builder the delta hash is CalculateModelMultihash of the very delta object placed in the request, with the caller's multihash code, and that value is what is signed / put in the suffix data; all four builders return the canonical encoding of the request object; (G1) builders refuse unacceptable inputs — create: document xor patches, valid multihash code, both commitments computed with that code, distinct commitments; update/recover: key present and valid, key-reuse check against the next commitment, signer checks; deactivate: signer checks; (P2) GetAnchoredOperation rebuilds the per-type request from the parsed model field by field and returns its canonical encoding with type, suffix and anchor origin; (P3) the Sidetree client derives the reveal value from the signer's public key with the code of the operation commitment, uses the signer's key as update/recovery key, derives next commitments from the next keys with the configured algorithm and passes the signer through; (O1) createUpdatePatches never emits a remove-* patch after an add-* patch. (E1) the request-document builders (PopulateRaw*, Doc.JSONBytes) do not write through their inputs. (K3) member names of all request and signed-data models are the wire format's; the did suffix is the text after the last ':'; the raw key carries exactly one key representation on every accepting path; builder options are found by type. An unnamed anchor origin stays absent; every accepting exit of Doc.JSONBytes depends on every field of Doc; each service member is copied under conditions on itself only. All of C16 runs inside this check; With… options store their argument unconditionally; update-patch builders hand values on as they are. Fresh request body per HTTP attempt; a named anchor origin reaches the request info. One raw entry per supplied key / service / URI. C09.G1 runs here. The composer's rules (C10) run inside this check: what the builders put into a request is applied patch after patch."}
 }
 
 func (c *Ctx) unmarshalTargetType(f *ssa.Function) types.Type {
@@ -755,12 +755,26 @@ func runC08(c *Ctx) {
 	if prk != nil {
 		c.Analysed(prk)
 		both := false
+		// (one entry's map: a path that makes the map anew on the way is the next entry's)
+		mapOf := func(mu *ssa.MapUpdate) *ssa.MakeMap { mm, _ := mu.Map.(*ssa.MakeMap); return mm }
+		anew := func(mm *ssa.MakeMap) map[edge]bool {
+			cut := map[edge]bool{}
+			if mm != nil {
+				for _, p := range mm.Block().Preds {
+					cut[edge{from: p, to: mm.Block()}] = true
+				}
+			}
+			return cut
+		}
 		for _, a := range jwkW {
 			for _, b := range b58W {
-				if _, r := reach(a.Block(), nil)[b.Block()]; r {
+				if mapOf(a) != nil && mapOf(b) != nil && mapOf(a) != mapOf(b) {
+					continue
+				}
+				if _, r := reach(a.Block(), anew(mapOf(a)))[b.Block()]; r {
 					both = true
 				}
-				if _, r := reach(b.Block(), nil)[a.Block()]; r {
+				if _, r := reach(b.Block(), anew(mapOf(a)))[a.Block()]; r {
 					both = true
 				}
 			}
@@ -773,7 +787,44 @@ func runC08(c *Ctx) {
 			}
 		}
 		none := false
+		var theMap *ssa.MakeMap
+		oneMap := true
+		for _, mu := range append(append([]*ssa.MapUpdate{}, jwkW...), b58W...) {
+			if mm := mapOf(mu); mm == nil || (theMap != nil && mm != theMap) {
+				oneMap = false
+			} else {
+				theMap = mm
+			}
+		}
+		if oneMap && theMap != nil {
+			// wherever the entry's map goes on (returned, put in the list), a representation was written on the way
+			for b := range reach(theMap.Block(), cut) {
+				for _, in := range b.Instrs {
+					if _, isMU := in.(*ssa.MapUpdate); isMU {
+						continue
+					}
+					if _, isD := in.(*ssa.DebugRef); isD {
+						continue
+					}
+					if in == ssa.Instruction(theMap) || !usesValue(in, theMap) {
+						continue
+					}
+					written := false
+					for _, mu := range append(append([]*ssa.MapUpdate{}, jwkW...), b58W...) {
+						if mu.Block() == b {
+							written = true
+						}
+					}
+					if !written {
+						none = true
+					}
+				}
+			}
+		}
 		for b := range reach(prk.Blocks[0], cut) {
+			if oneMap && theMap != nil {
+				break
+			}
 			if r, isR := b.Instrs[len(b.Instrs)-1].(*ssa.Return); isR && maySucceed(r) {
 				written := false
 				for _, mu := range append(append([]*ssa.MapUpdate{}, jwkW...), b58W...) {
@@ -1174,6 +1225,11 @@ func runC08(c *Ctx) {
 	// three parsers hand (from, expiry(from, until)) of the signed data to the time validator, in that order (C09.G1)
 	c.only(runC09, "C09.G1")
 	c.Min("C09.G1", 3)
+	// "applying the requests in order yields the document asked for": what the builders put into a request is applied by
+	// the composer patch after patch, each operation of an ietf-json-patch on the result of the one before (C10.P1 fold,
+	// C10.E1 write sets)
+	c.apart(runC10)
+	c.Min("C10.P1", 3)
 }
 
 // patchKindOf: which patch constructor a helper (transitively) calls: add-* / remove-*.
